@@ -21,13 +21,15 @@ func run(c *driver.Ctx) {
 	n2 := int64(c.N(40, 700))
 	nd := int64(c.N(40, 600))
 	n3 := int64(c.N(6, 60))
+	nr := int64(c.N(60, 900))
 	if c.Variant == "race" {
 		n1 = int64(c.N(40, 500))
 		n2 = int64(c.N(30, 500))
 		nd = int64(c.N(20, 300))
 		n3 = int64(c.N(3, 20))
+		nr = int64(c.N(30, 400))
 	}
-	for i := int64(0); i < n1+nd+n2+n3; i++ {
+	for i := int64(0); i < n1+nd+n2+n3+nr; i++ {
 		if !c.Want(i) {
 			continue
 		}
@@ -46,9 +48,12 @@ func run(c *driver.Ctx) {
 		case i < n1+nd+n2:
 			runL2(c, rng, i-n1-nd)
 			c.Observe("l2_histories", 1)
-		default:
+		case i < n1+nd+n2+n3:
 			runStress(c, rng, i-n1-nd-n2)
 			c.Observe("l3_stress_histories", 1)
+		default:
+			runRecovered(c, rng, i-n1-nd-n2-n3)
+			c.Observe("l1_recovered_backlogs", 1)
 		}
 	}
 }
@@ -58,7 +63,8 @@ func main() {
 		ID:    "C02",
 		Level: "exploration",
 		Rule: "L1: a case is a seed-generated script of offer / complete / cancel steps on a seed-generated configuration (memory|persistent, requests|items|bytes sizer, capacity, 1-3 consumers, block_on_overflow, wait_for_result), distinct by (configuration, step trace), non-trivial when it reached a refusal, a blocked producer, >= 2 requests in flight or a cancellation while blocked; " +
-"L1-directed: the signal-versus-cancel rendezvous inside a blocked producer's wait window (completion and cancellation made ready at the same instant through the instrumented context), followed by a block/complete/release probe of the wake-up bookkeeping; " +
+			"L1-directed: the signal-versus-cancel rendezvous inside a blocked producer's wait window (completion and cancellation made ready at the same instant through the instrumented context), followed by a block/complete/release probe of the wake-up bookkeeping; " +
+			"L1-recovered: a persistent queue restarted on the image of a previous incarnation in which a seed-chosen subset of the stored elements cannot be dispatched (garbage / truncated / short payloads, optionally one transient storage error), with block_on_overflow and producers blocked behind the backlog; judged by exactly-once for intact and new requests, never-for-refused, order of intact elements, no producer left blocked with nothing in flight, size zero at rest; " +
 			"L3: high-volume accounting stress (4-8 producers x 1200-4000 blocking offers of different sizes, with and without wait_for_result, size readers hammering the lock) judged only by size bounds, zero at rest, every producer returning; " +
 			"L2: a case is one concurrent history (2-5 producers x 3-7 offers, auto-completing consumers, cancellers, size reader), distinct by interleaving signature (order of call/return/hand-off/done events with ids erased), non-trivial when >= 2 offers overlapped in time",
 		Assumptions: []string{
